@@ -359,6 +359,12 @@ pub fn scenarios(thorough: bool) -> Vec<BookScenario> {
 		}
 		add(format!("unsub-unknown-and-malformed:mask{mi}"), vec![vec![Subscribe(0), UnsubRaw(json!([999])), UnsubRaw(json!(["x"])), UnsubRaw(json!([[1]])), UnsubRaw(json!({})), UnsubRaw(json!([])), Unsub(0)]], scripts.clone(), 2, mask);
 	}
+	// string subscription ids
+	for h in [0usize, 1, 5] {
+		add(format!("string-ids:unsub-own:h{h}"), vec![vec![Subscribe(h), Unsub(0), Unsub(0)]], scripts.clone(), 2, mask_harness_only);
+	}
+	add("string-ids:unsub-foreign".into(), vec![vec![Subscribe(0), UnsubForeign(1, 0), Unsub(0)], vec![Subscribe(0), UnsubForeign(0, 0)]], scripts.clone(), 2, mask_harness_only);
+	add("string-ids:numeric-spelling-of-a-string-id".into(), vec![vec![Subscribe(0), UnsubRaw(json!([1])), UnsubRaw(json!(["1"])), Unsub(0)]], scripts.clone(), 2, mask_harness_only);
 	// foreign ids across two connections
 	add("unsub-foreign".into(), vec![vec![Subscribe(0), UnsubForeign(1, 0), Unsub(0)], vec![Subscribe(0), UnsubForeign(0, 0)]], scripts.clone(), 2, mask_harness_only);
 	// caps
